@@ -140,6 +140,10 @@ def abs_nf(r, signs):
         g = _content(den)
         rest = _div_mono(den, g)
         if not rest.is_const() or not all(signs.is_pos_var(v) for v in g):
+            sgd = poly_sign(den, signs) if 'I' not in den.vars() else None
+            if sgd in (1, -1):
+                # a denominator of one sign: |n / d| = |n| / |d|
+                return abs_nf(Rat(r.n), signs) / (Rat(den) * sgd)
             return Rat.var(satom('abs', _signnorm(r)))
     num = r.n
     if 'I' in num.vars():
